@@ -56,6 +56,11 @@ CHECKS = {
             "TLC first shows on every call graph over 2 applications x 2 endpoints (bodies with calls, nesting, recursion, mutual recursion) that a generator following the documented rules satisfies all clauses (declared once, activation balance, calls only while active, blocks closed, arrows = reference walk), so the clauses are satisfiable; then every diagram the real generator produces for TLC-generated programs (3 applications x 2 endpoints, calls in nested if/else/loops/groups/one-of, returns anywhere, self calls, cycles) from every start endpoint is replayed through the same machine. Termination is the wall-clock bound of the worker; an error return is admissible, a panic or hang is not.",
             "Default labels; no blackboxes, grouping boxes or ~human/~cron participants yet; the PlantUML reader fails closed.",
             "DESIGN.md §6 C13"),
+    "C10": ("model_checking",
+            "TLA+ reference interpreter Eval.tla (tagged values, operator semantics, let-programs as behaviours, Pure as an action property) model-checked by TLC; TLC-generated well-typed let-programs rendered as Sysl views, evaluated by the real evaluator, every bound variable read back after all later lets and compared with the reference by TLC (EvalTrace.tla)",
+            "TLC is the independent interpreter: the meaning of each operator is written in TLA+; TLC checks determinism and purity of the design exhaustively for short programs and generates type-directed random programs (operands preferably earlier variables, so one binding feeds several later expressions; collection- and concatenation-focused configurations cross slice-capacity steps). The real evaluator's value for every variable, read back at the end, must equal the reference value (sets as sets, with duplicate detection; lists as sequences); each program is evaluated twice for repeatability.",
+            "Operand kinds accepted per operator follow the dispatch table of pkg/eval (no other definition exists); covered: integer arithmetic/comparison, string concatenation/equality, and, negation, if-then-else, list concatenation, set union, count, membership, where, transforms over lists/sets/maps, record construction, attribute access; not covered: flatten, model-typed arguments, calls between views.",
+            "DESIGN.md §6 C10"),
 }
 
 PENDING = {}
